@@ -1,4 +1,5 @@
 import GeosModel.Model.Relate.Pred
+import GeosModel.Model.Relate.EnvExit
 import GeosModel.Model.Relate.Ref
 /-!
 # C01 — relate matrix and named predicates equal the exact DE-9IM on grid inputs
@@ -13,7 +14,15 @@ What is *proved* here (for every matrix, every dimension pair, every event seque
 * `early_exit_eq_final` — for every sequence of `updateDimension` events, the value an IM predicate ends
   up with (frozen early or computed in `finish()`) equals `valueIM` of the matrix all the events build;
   `basic_intersects_final` / `basic_disjoint_final` — the same for the two matrix-free predicates;
-* `run_im_eq_fold` — the matrix held by the predicate is the fold of the events.
+* `run_im_eq_fold` — the matrix held by the predicate is the fold of the events;
+* `envelope_exit_sound` — the `false` that `RelateNG::evaluate` returns without looking at the geometry when
+  `hasRequiredEnvelopeInteraction` fails (per-predicate `requireCovers` / `requireInteraction` against the envelopes)
+  is the DE-9IM definition's answer, for every predicate kind and every true matrix compatible with the envelope facts;
+  `exterior_check_irrelevant_A/B` — when `requireExteriorCheck` is false, the matrix entries the skipped point tests
+  could raise do not influence the predicate's value (Model/Relate/EnvExit.lean).
+
+The models `Model/Relate/Pred.lean` and `Model/Relate/EnvExit.lean` are tied to the source by the translator:
+`Props/C01GenPred.lean` proves the functions regenerated from the current C++ equal to them, for all arguments.
 
 What is *not* proved: that the geometric engine of RelateNG emits the right events.  That part is
 tied by correspondence against `GeosModel.Relate.refIM` (Model/Relate/Ref.lean), an independent exact
@@ -581,11 +590,110 @@ theorem basic_disjoint_final (us : List Upd) (hd : ∀ u ∈ us, 0 ≤ u.d) :
   rw [hn]
   cases h : us.any (fun u => isIntersection u.a u.b) <;> simp
 
+
+/-! ### the early exits in front of the state machine: envelope test and exterior-check flags (Model/Relate/EnvExit.lean) -/
+
+theorem disjoint_entries (m : IM) (h : m.isDisjoint = true) : m.ii = -1 ∧ m.ib = -1 ∧ m.bi = -1 ∧ m.bb = -1 := by
+  simpa [IM.isDisjoint, and_assoc] using h
+
+theorem T_neg_one : IM.T (-1) = false := by decide
+
+/-- a predicate that requires an interaction is false on a matrix without one -/
+theorem requireInteraction_sound (k : Kind) (hk : k.requireInteraction = true) (dA dB : Int) (M : IM) (hd : M.isDisjoint = true) :
+    k.defValue dA dB M = false := by
+  obtain ⟨h1, h2, h3, h4⟩ := disjoint_entries M hd
+  cases k with
+  | pattern p =>
+    simp only [Kind.requireInteraction] at hk
+    simp only [Kind.defValue, valueIM, matchesP]
+    match p, hk with
+    | [ii, ib, c, bi, bb, f, g, h, i], hk =>
+      simp only [patRequiresInteraction, Bool.or_eq_true, beq_iff_eq, decide_eq_true_eq] at hk
+      simp only [IM.entries, h1, h2, h3, h4, List.zipWith, List.all, matchEntry]
+      rcases hk with ((hk | hk) | hk) | hk <;> rcases hk with hk | hk <;>
+        first
+          | (subst hk; simp)
+          | (have e1 : (ii == -3) = false := by simp; omega
+             have e2 : (ii == -2) = false := by simp; omega
+             have e3 : ((-1 : Int) == ii) = false := by simp; omega
+             simp [e1, e2, e3])
+          | (have e1 : (ib == -3) = false := by simp; omega
+             have e2 : (ib == -2) = false := by simp; omega
+             have e3 : ((-1 : Int) == ib) = false := by simp; omega
+             simp [e1, e2, e3])
+          | (have e1 : (bi == -3) = false := by simp; omega
+             have e2 : (bi == -2) = false := by simp; omega
+             have e3 : ((-1 : Int) == bi) = false := by simp; omega
+             simp [e1, e2, e3])
+          | (have e1 : (bb == -3) = false := by simp; omega
+             have e2 : (bb == -2) = false := by simp; omega
+             have e3 : ((-1 : Int) == bb) = false := by simp; omega
+             simp [e1, e2, e3])
+  | _ =>
+    simp_all [Kind.requireInteraction, Kind.defValue, valueIM, IM.isIntersects, IM.isContains, IM.isWithin, IM.isCovers, IM.isCoveredBy,
+      IM.hasPointInCommon, IM.isCrosses, IM.isOverlaps, IM.isTouches, T_neg_one] <;> (repeat' split) <;> simp_all
+
+/-- **`envelope_exit_sound`** — `RelateNG::evaluate` answers `false` without looking at the geometry when
+`hasRequiredEnvelopeInteraction` fails.  That answer is the DE-9IM definition's, for every predicate kind and every true matrix
+`M` of a pair whose envelopes have the facts `e`.  The three hypotheses are what the envelope facts mean for the point sets:
+if env(A) does not cover env(B) then either some point of B lies outside env(A), hence in the Exterior of A (`EI` or `EB` is
+non-empty), or B has no point at all (then nothing intersects); symmetrically for B; disjoint envelopes mean no common point. -/
+theorem envelope_exit_sound (k : Kind) (e : EnvFacts) (dA dB : Int) (M : IM)
+    (hA : e.aCoversB = false → (M.ei ≥ 0 ∨ M.eb ≥ 0) ∨ M.isDisjoint = true)
+    (hB : e.bCoversA = false → (M.ie ≥ 0 ∨ M.be ≥ 0) ∨ M.isDisjoint = true)
+    (hI : e.intersects = false → M.isDisjoint = true)
+    (hexit : hasRequiredEnvelopeInteraction k e = false) : k.defValue dA dB M = false := by
+  unfold hasRequiredEnvelopeInteraction at hexit
+  by_cases c1 : k.requireCovers true = true
+  · simp only [c1, if_true] at hexit
+    have hk : k = .contains ∨ k = .covers := by cases k <;> simp_all [Kind.requireCovers]
+    rcases hA hexit with h | h
+    · rcases hk with rfl | rfl
+      · exact isContains_false M h
+      · exact isCovers_false M h
+    · obtain ⟨h1, h2, h3, h4⟩ := disjoint_entries M h
+      rcases hk with rfl | rfl <;>
+        simp [Kind.defValue, valueIM, IM.isContains, IM.isCovers, IM.hasPointInCommon, h1, h2, h3, h4, T_neg_one]
+  · simp only [c1, if_false, Bool.false_eq_true] at hexit
+    by_cases c2 : k.requireCovers false = true
+    · simp only [c2, if_true] at hexit
+      have hk : k = .within ∨ k = .coveredBy := by cases k <;> simp_all [Kind.requireCovers]
+      rcases hB hexit with h | h
+      · rcases hk with rfl | rfl
+        · exact isWithin_false M h
+        · exact isCoveredBy_false M h
+      · obtain ⟨h1, h2, h3, h4⟩ := disjoint_entries M h
+        rcases hk with rfl | rfl <;>
+          simp [Kind.defValue, valueIM, IM.isWithin, IM.isCoveredBy, IM.hasPointInCommon, h1, h2, h3, h4, T_neg_one]
+    · simp only [c2, if_false, Bool.false_eq_true] at hexit
+      have h1 : k.requireInteraction = true := by cases hh : k.requireInteraction <;> simp_all
+      have h2 : e.intersects = false := by cases hh : e.intersects <;> simp_all
+      exact requireInteraction_sound k h1 dA dB M (hI h2)
+
+/-- **`exterior_check_irrelevant_A`** — when `requireExteriorCheck(GEOM_A)` is false RelateNG does not test the points of A against the
+Exterior of B; the entries such tests could raise (`IE`, `BE`) do not influence the predicate's value -/
+theorem exterior_check_irrelevant_A (k : Kind) (h : k.requireExteriorCheck true = false) (dA dB : Int) (m : IM) (x y : Int) :
+    k.defValue dA dB { m with ie := x, be := y } = k.defValue dA dB m := by
+  cases k <;> simp_all [Kind.requireExteriorCheck, Kind.defValue, valueIM, IM.isIntersects, IM.isDisjoint, IM.isContains, IM.isCovers,
+    IM.hasPointInCommon]
+
+/-- **`exterior_check_irrelevant_B`** — the same for the points of B against the Exterior of A (`EI`, `EB`) -/
+theorem exterior_check_irrelevant_B (k : Kind) (h : k.requireExteriorCheck false = false) (dA dB : Int) (m : IM) (x y : Int) :
+    k.defValue dA dB { m with ei := x, eb := y } = k.defValue dA dB m := by
+  cases k <;> simp_all [Kind.requireExteriorCheck, Kind.defValue, valueIM, IM.isIntersects, IM.isDisjoint, IM.isWithin, IM.isCoveredBy,
+    IM.hasPointInCommon]
+
 /-! ### non-vacuity -/
 
 example : ((PState.new .contains).initDim 2 1 |>.run [⟨.I, .I, 1⟩, ⟨.E, .I, 1⟩, ⟨.I, .E, 2⟩] |>.finish).value = some false := by
   decide
 
 example : isDetermined .contains 2 1 (foldIM (IM.allF.set .E .E 2) [⟨.I, .I, 1⟩, ⟨.E, .I, 1⟩]) = true := by decide
+
+-- envelope exit: A = [0,2]², B = [1,3]² — env(A) does not cover env(B), `contains` exits with false; a matrix of such a pair
+-- (two overlapping squares, 212101212) has EI = 2 and indeed is not `contains`
+example : hasRequiredEnvelopeInteraction .contains ⟨true, false, false, false, false⟩ = false := by decide
+example : Kind.defValue .contains 2 2 ⟨2, 1, 2, 1, 0, 1, 2, 1, 2⟩ = false := by decide
+example : (Kind.requireExteriorCheck .contains true = false) ∧ (Kind.requireExteriorCheck .contains false = true) := by decide
 
 end GeosModel.Relate
